@@ -22,7 +22,11 @@ class Boom(Exception):
     pass
 
 
-def interp(code, log, tag="p", maxdepth=2, msg_cmd="null"):
+SIMPLE_OPS = (YIELD, RAISE, RETURN, END)
+ALL_OPS = (YIELD, RAISE, RETURN, SUB, TRYFIN, TRYEXC, END)
+
+
+def interp(code, log, tag="p", maxdepth=2, msg_cmd="null", ops=ALL_OPS):
     """Generator for program ``code`` (list of symbolic ints).  ``log`` collects plan-side observations."""
     from bluesky.utils import Msg
 
@@ -33,7 +37,7 @@ def interp(code, log, tag="p", maxdepth=2, msg_cmd="null"):
         while state["pc"] < L:
             pc = state["pc"]
             state["pc"] = pc + 1
-            op = fork_int(code[pc], 0, NOPS - 1)
+            op = ops[fork_int(code[pc], 0, len(ops) - 1)]
             if op == YIELD:
                 r = yield Msg(msg_cmd, tag, pc)
                 log.append(("resp", tag, pc, r))
